@@ -1,12 +1,17 @@
 """C07 — oneof exclusivity after any history."""
-AREAS = ["varint", "single", "frame", "msg", "msgload"]
+AREAS = ["varint", "single", "frame", "msg", "msgload", "msgattr"]
 LEVEL = "other"
 ONLY = None
 EXPLANATION = (
     "Message.load step clause C07-oneof-member-becomes-selected: after a record of a oneof member the member is the "
     "selected one and every sibling is reset (last wins, any order); dump's WIRE contributes nothing for unselected members. "
-    "The contracts of __setattr__/__post_init__ are used as models (C-SETATTR) and exercised, together with copy / "
-    "deepcopy / pickle / from_dict histories, by the bounded stand-in (random operation sequences on OneOfs).")
-ASSUMED = ["C-SETATTR / C-GETATTR models of the attribute protocol", "histories: bounded random sequences"]
+    "Message.__setattr__ is verified at the level of the raw instance dictionary: the assigned member becomes the "
+    "selected one (also for a default value) and EVERY sibling is reset to PLACEHOLDER, nothing else changes; "
+    "__post_init__ derives the selection from the constructor arguments (last member holding a value); "
+    "__getattribute__ raises AttributeError exactly for unselected members. These three contracts are the models "
+    "(C-SETATTR / C-GETATTR) used by the load / dump proofs, so every history of assignments and decodes preserves "
+    "exclusivity by induction over the operation sequence; copy / deepcopy / pickle / from_dict histories are "
+    "additionally exercised by the bounded stand-in (random operation sequences on OneOfs).")
+ASSUMED = ["A-OBJ raw instance dictionary model", "A-NESTED-MARK (marking an assigned field-less message is nested-object state)", "copy/pickle/from_dict histories: bounded random sequences"]
 from pyvc.check import standin_bounded
 BOUNDED = [standin_bounded("C07")]
